@@ -5,14 +5,113 @@ package main
 
 import (
 	"fmt"
+	"math/big"
 	"sort"
 	"strconv"
 	"strings"
 	"time"
 
+	"diagonal.works/b6"
+	"diagonal.works/b6/encoding"
+	"diagonal.works/b6/ingest/compact"
 	"diagonal.works/b6/search"
 	"verifharness/hx"
 )
+
+// ---- compact indices: values are b6.FeatureIDs ---------------------------------------------------
+//
+// The generator works on uint64 "slots". For a compact index a slot u < 12*2^56 stands for the feature ID
+// {types[g/3], names[g%3], v} with g = u >> 56, v = u & (2^56-1) (an order embedding: FeatureID.Less compares
+// type, namespace, value), and is written to the driver as the natural TypeAndNamespace*2^64 + v, the key of
+// B6.Model.Posting.keyNat.
+
+var cTypes = []b6.FeatureType{b6.FeatureTypePoint, b6.FeatureTypePath, b6.FeatureTypeArea, b6.FeatureTypeRelation}
+var cNames = []b6.Namespace{"nsa", "nsb", "nsc"}
+
+const cGroups = 12
+const cValueBits = 56
+
+func cNorm(u uint64) uint64 { return u % (cGroups << cValueBits) }
+
+func cID(u uint64) b6.FeatureID {
+	g := u >> cValueBits
+	return b6.FeatureID{Type: cTypes[g/3], Namespace: cNames[g%3], Value: u & (1<<cValueBits - 1)}
+}
+
+func cNat(id b6.FeatureID, nt *compact.NamespaceTable) string {
+	tn := compact.CombineTypeAndNamespace(id.Type, nt.Encode(id.Namespace))
+	n := new(big.Int).Lsh(big.NewInt(int64(tn)), 64)
+	n.Add(n, new(big.Int).SetUint64(id.Value))
+	return n.String()
+}
+
+type memFile struct{ b []byte }
+
+func (m *memFile) WriteAt(p []byte, off int64) (int, error) {
+	if need := int(off) + len(p); need > len(m.b) {
+		m.b = append(m.b, make([]byte, need-len(m.b))...)
+	}
+	copy(m.b[off:], p)
+	return len(p), nil
+}
+
+type idIter struct {
+	ids []compact.FeatureID
+	i   int
+}
+
+func (s *idIter) Next() bool                   { s.i++; return s.i <= len(s.ids) }
+func (s *idIter) FeatureID() compact.FeatureID { return s.ids[s.i-1] }
+
+// a real compact.Index (token map + posting lists) laid out as ingest/compact/build.go's buildIndex does
+func buildCompact(w *world) search.Index {
+	var tokens []string
+	for _, t := range w.tokens {
+		if len(w.lists[t]) > 0 {
+			tokens = append(tokens, t)
+		}
+	}
+	te := compact.NewTokenMapEncoder()
+	for i, t := range tokens {
+		te.Add(t, i)
+	}
+	te.FinishAdds()
+	lb := encoding.NewByteArraysBuilder(len(tokens))
+	m := &memFile{}
+	var pl compact.PostingList
+	buffer := make([]byte, compact.PostingListHeaderMaxLength+4096)
+	for stage := 0; stage < 2; stage++ {
+		if stage == 1 {
+			lb.FinishReservation()
+			off, err := te.Write(m, 0)
+			if err == nil {
+				_, err = lb.WriteHeader(m, off)
+			}
+			if err != nil {
+				panic(err)
+			}
+		}
+		for j, t := range tokens {
+			enc := make([]compact.FeatureID, len(w.lists[t]))
+			for i, u := range w.lists[t] {
+				enc[i] = w.nt.EncodeID(cID(u))
+			}
+			pl.Fill(t, &idIter{ids: enc})
+			n := pl.Header.Marshal(buffer)
+			if stage == 0 {
+				lb.Reserve(j, n)
+				lb.Reserve(j, len(pl.IDs))
+			} else if err := lb.WriteItem(m, j, buffer[0:n], pl.IDs); err != nil {
+				panic(err)
+			}
+		}
+	}
+	ix, err := compact.NewIndex(m.b, w.nt, nil)
+	if err != nil {
+		panic(err)
+	}
+	return ix
+}
 
 type u64Values struct{}
 
@@ -39,6 +138,7 @@ type node struct {
 	kind     byte // e a p u i r
 	tok      string
 	b, e     uint64
+	w        *world // for rendering / converting b and e
 	children []*node
 }
 
@@ -51,7 +151,7 @@ func (n *node) String() string {
 	case 'p':
 		return "( p '" + n.tok + " )"
 	case 'r':
-		return fmt.Sprintf("( r %d %d %s )", n.b, n.e, n.children[0])
+		return fmt.Sprintf("( r %s %s %s )", n.w.show(n.b), n.w.show(n.e), n.children[0])
 	}
 	parts := []string{"(", string(n.kind)}
 	for _, c := range n.children {
@@ -70,7 +170,7 @@ func (n *node) query() search.Query {
 	case 'p':
 		return search.TokenPrefix{Prefix: n.tok}
 	case 'r':
-		return search.KeyRange{Begin: n.b, End: n.e, Query: n.children[0].query()}
+		return search.KeyRange{Begin: n.w.key(n.b), End: n.w.key(n.e), Query: n.children[0].query()}
 	case 'u':
 		u := make(search.Union, len(n.children))
 		for i, c := range n.children {
@@ -112,9 +212,34 @@ type world struct {
 	tokens   []string            // tokens in the index, sorted
 	lists    map[string][]uint64 // sorted, deduplicated
 	universe []uint64            // sorted values used anywhere
+	compact  bool
+	nt       *compact.NamespaceTable
 }
 
-func key(r *hx.Rand, w *world, c *hx.Ctx) uint64 {
+func (w *world) norm(u uint64) uint64 {
+	if w != nil && w.compact {
+		return cNorm(u)
+	}
+	return u
+}
+
+func (w *world) show(u uint64) string {
+	if w != nil && w.compact {
+		return cNat(cID(u), w.nt)
+	}
+	return strconv.FormatUint(u, 10)
+}
+
+func (w *world) key(u uint64) search.Key {
+	if w != nil && w.compact {
+		return cID(u)
+	}
+	return u
+}
+
+func key(r *hx.Rand, w *world, c *hx.Ctx) uint64 { return w.norm(rawKey(r, w, c)) }
+
+func rawKey(r *hx.Rand, w *world, c *hx.Ctx) uint64 {
 	n := len(w.universe)
 	switch x := r.Intn(10); {
 	case x < 5 && n > 0:
@@ -189,12 +314,24 @@ func genQuery(r *hx.Rand, w *world, c *hx.Ctx, depth int, root bool) *node {
 		if b > e && !r.Chance(1, 5) {
 			b, e = e, b
 		}
-		return &node{kind: 'r', b: b, e: e, children: []*node{genQuery(r, w, c, depth-1, false)}}
+		return &node{kind: 'r', b: b, e: e, w: w, children: []*node{genQuery(r, w, c, depth-1, false)}}
 	}
 }
 
-func genWorld(r *hx.Rand, c *hx.Ctx) *world {
-	w := &world{lists: map[string][]uint64{}}
+func genWorld(r *hx.Rand, c *hx.Ctx, compactMode bool) *world {
+	w := &world{lists: map[string][]uint64{}, compact: compactMode}
+	var groups []int
+	if compactMode {
+		w.nt = &compact.NamespaceTable{}
+		names := append([]b6.Namespace{}, cNames...)
+		if r.Bool() {
+			names = append(names, "nsz", "aaa") // namespaces of the table that no id uses
+		}
+		w.nt.FillFromNamespaces(names)
+		for _, g := range r.Perm(cGroups)[:1+r.Intn(4)] {
+			groups = append(groups, g)
+		}
+	}
 	// universe
 	nu := 3 + r.Intn(12)
 	if r.Chance(1, 15) {
@@ -202,6 +339,9 @@ func genWorld(r *hx.Rand, c *hx.Ctx) *world {
 	}
 	if c.Thorough() && r.Chance(1, 10) {
 		nu = 10 + r.Intn(60)
+	}
+	if compactMode && r.Chance(1, 6) {
+		nu = 40 + r.Intn(120) // posting lists longer than one 64-byte block
 	}
 	small := r.Chance(2, 3)
 	seen := map[uint64]bool{}
@@ -213,6 +353,9 @@ func genWorld(r *hx.Rand, c *hx.Ctx) *world {
 			v = r.Uint64Edge()
 		} else {
 			v = uint64(r.Intn(1000))
+		}
+		if compactMode {
+			v = uint64(groups[r.Intn(len(groups))])<<cValueBits | v&(1<<cValueBits-1)
 		}
 		if !seen[v] {
 			seen[v] = true
@@ -320,20 +463,22 @@ func renderIndex(kind string, tokens []string, w *world) string {
 	for _, t := range tokens {
 		parts = append(parts, "'"+t, "(")
 		for _, v := range w.lists[t] {
-			parts = append(parts, strconv.FormatUint(v, 10))
+			parts = append(parts, w.show(v))
 		}
 		parts = append(parts, ")")
 	}
 	return strings.Join(parts, " ")
 }
 
-func answer(ok bool, it search.Iterator) string {
+func answer(ok bool, it search.Iterator, w *world) string {
 	if !ok {
 		return "false"
 	}
-	v := it.Value()
-	if u, isU := v.(uint64); isU {
-		return "true " + strconv.FormatUint(u, 10)
+	switch v := it.Value().(type) {
+	case uint64:
+		return "true " + strconv.FormatUint(v, 10)
+	case b6.FeatureID:
+		return "true " + cNat(v, w.nt)
 	}
 	return "true ?"
 }
@@ -369,13 +514,13 @@ func runCalls(c *hx.Ctx, ix search.Index, w *world, q *node, drain bool, maxCall
 		if drain || r.Bool() {
 			op = "next"
 			usedNext = true
-			a = guarded(func() string { return answer(it.Next(), it) })
+			a = guarded(func() string { return answer(it.Next(), it, w) })
 			c.Note("call:next")
 		} else {
 			k := key(r, w, c)
-			op = "adv " + strconv.FormatUint(k, 10)
+			op = "adv " + w.show(k)
 			usedAdv = true
-			a = guarded(func() string { return answer(it.Advance(k), it) })
+			a = guarded(func() string { return answer(it.Advance(w.key(k)), it, w) })
 			c.Note("call:advance")
 		}
 		c.Op(op, a)
@@ -396,15 +541,23 @@ func oneCase(c *hx.Ctx) {
 		return
 	}
 	r := c.Rand
-	w := genWorld(r, c)
-	tree := r.Bool()
-	kind := "array"
-	if tree {
-		kind = "tree"
+	kindNo := r.Intn(3)
+	w := genWorld(r, c, kindNo == 2)
+	kind := []string{"array", "tree", "compact"}[kindNo]
+	var ix search.Index
+	var present []string
+	if kindNo == 2 {
+		ix = buildCompact(w)
+		for _, t := range w.tokens {
+			if len(w.lists[t]) > 0 {
+				present = append(present, t)
+			}
+		}
+	} else {
+		ix, present = build(r, c, w, kindNo == 1)
 	}
-	ix, present := build(r, c, w, tree)
 	// the model index holds exactly the tokens the real index holds
-	w2 := &world{tokens: present, lists: w.lists, universe: w.universe}
+	w2 := &world{tokens: present, lists: w.lists, universe: w.universe, compact: w.compact, nt: w.nt}
 	c.Op(renderIndex(kind, present, w2), "ok")
 	c.Note("index:" + kind)
 	c.Note(fmt.Sprintf("tokens:%d", len(present)))
@@ -465,11 +618,11 @@ func corpus(c *hx.Ctx) {
 		c.Op(renderIndex(kind, w.tokens, w), "ok")
 		all := func(t string) *node { return &node{kind: 'a', tok: t} }
 		qs := []*node{
-			{kind: 'i', children: []*node{{kind: 'u', children: []*node{all("a=1"), all("a=2")}}, {kind: 'r', b: 3, e: 15, children: []*node{{kind: 'p', tok: "b"}}}, {kind: 'p', tok: "a="}}},
+			{kind: 'i', children: []*node{{kind: 'u', children: []*node{all("a=1"), all("a=2")}}, {kind: 'r', b: 3, e: 15, w: w, children: []*node{{kind: 'p', tok: "b"}}}, {kind: 'p', tok: "a="}}},
 			{kind: 'i', children: []*node{all("a=1"), {kind: 'e'}}},              // intersection with an empty child
 			{kind: 'u'},                                                           // empty union
-			{kind: 'r', b: 9, e: 4, children: []*node{all("b")}},                  // begin > end
-			{kind: 'r', b: 0, e: ^uint64(0), children: []*node{{kind: 'p', tok: ""}}}, // everything
+			{kind: 'r', b: 9, e: 4, w: w, children: []*node{all("b")}},                  // begin > end
+			{kind: 'r', b: 0, e: ^uint64(0), w: w, children: []*node{{kind: 'p', tok: ""}}}, // everything
 			{kind: 'i'}, // no children: Go panics; model panics
 			{kind: 'u', children: []*node{all("a=1"), all("a=1"), all("zz")}}, // duplicate children, absent token
 		}
@@ -480,15 +633,41 @@ func corpus(c *hx.Ctx) {
 				var a, op string
 				if k < 0 {
 					op = "next"
-					a = guarded(func() string { return answer(it.Next(), it) })
+					a = guarded(func() string { return answer(it.Next(), it, w) })
 				} else {
 					op = fmt.Sprintf("adv %d", k)
-					a = guarded(func() string { return answer(it.Advance(uint64(k)), it) })
+					a = guarded(func() string { return answer(it.Advance(uint64(k)), it, w) })
 				}
 				c.Op(op, a)
 				if !strings.HasPrefix(a, "true") {
 					break
 				}
+			}
+		}
+	}
+	// fixed by C08 (Advance to a namespace absent from the list did not consume the value): {a/1, c/5, c/9}
+	cw := &world{tokens: []string{"t", "u"}, lists: map[string][]uint64{
+		"t": {0<<cValueBits | 1, 2<<cValueBits | 5, 2<<cValueBits | 9},
+		"u": {2<<cValueBits | 5, 2<<cValueBits | 7, 5<<cValueBits | 0}}, compact: true, nt: &compact.NamespaceTable{}}
+	cw.nt.FillFromNamespaces(cNames)
+	cix := buildCompact(cw)
+	c.Op(renderIndex("compact", cw.tokens, cw), "ok")
+	for _, q := range []*node{{kind: 'a', tok: "t"}, {kind: 'u', children: []*node{{kind: 'a', tok: "t"}, {kind: 'a', tok: "u"}}},
+		{kind: 'i', children: []*node{{kind: 'p', tok: ""}, {kind: 'a', tok: "u"}}}} {
+		var it search.Iterator
+		c.Op("query "+q.String(), guarded(func() string { it = q.query().Compile(cix); return "ok" }))
+		for _, k := range []int64{1<<cValueBits | 3, -1, -1, -1} {
+			var a, op string
+			if k < 0 {
+				op = "next"
+				a = guarded(func() string { return answer(it.Next(), it, cw) })
+			} else {
+				op = "adv " + cw.show(uint64(k))
+				a = guarded(func() string { return answer(it.Advance(cw.key(uint64(k))), it, cw) })
+			}
+			c.Op(op, a)
+			if !strings.HasPrefix(a, "true") {
+				break
 			}
 		}
 	}
@@ -498,7 +677,7 @@ func corpus(c *hx.Ctx) {
 func main() {
 	hx.Main(hx.Family{
 		Name: "c06",
-		Rule: "random posting lists (0-7 tokens from a pool with shared prefixes, 0-13 values, small/edge/large) in a real ArrayIndex or TreeIndex (tree: random insertion order, duplicates, add-then-remove, tokens with emptied lists); 1-3 random query trees of depth <= 4 (thorough 5) over empty/all/union/intersection/key-range/token-prefix; per query 1-3 fresh compilations each driven by a random interleaving of Next/Advance(k) (keys: present values, +-1, 0/max, random) or a full Next drain, stopped at the first false; non-trivial = the tree has a union/intersection with >= 2 children, the sequence uses both Next and Advance and at least 3 calls return true",
+		Rule: "random posting lists (0-7 tokens from a pool with shared prefixes, 0-13 values, small/edge/large) in a real ArrayIndex, TreeIndex or compact.Index (compact: token map + posting lists laid out as buildIndex does, feature-ID values in 1-4 of 12 (type, namespace) groups, 1 in 6 with 40-160 values so that lists span several 64-byte blocks, advance keys always inside the namespace table; tree: random insertion order, duplicates, add-then-remove, tokens with emptied lists); 1-3 random query trees of depth <= 4 (thorough 5) over empty/all/union/intersection/key-range/token-prefix; per query 1-3 fresh compilations each driven by a random interleaving of Next/Advance(k) (keys: present values, +-1, 0/max, random) or a full Next drain, stopped at the first false; non-trivial = the tree has a union/intersection with >= 2 children, the sequence uses both Next and Advance and at least 3 calls return true",
 		Quick:    2500,
 		Thorough: 120000,
 		Corpus:   corpus,
